@@ -5,10 +5,19 @@ import PersimVerif.Model.Imager
   * `PersistenceImager.fit / transform / fit_transform` (persim/images.py 604-736) on the geometry
     state of `Model/Imager.lean`.  The pixel content of one image is the abstract parameter
     `img : State → skew → Dgm → ι` (C04/C11 own it); `zeros rx ry` is `np.zeros(resolution)`.
-  * `PersistenceLandscaper` (persim/landscapes/transformer.py, after /repo commit 9596bd3):
-    `__init__`, the `start/stop` properties with `_start_fixed/_stop_fixed`, `fit`, `transform`
-    (`PersLandscapeApprox(...)` is the abstract parameter `approx`), and sklearn's
-    `TransformerMixin.fit_transform` = `fit(X).transform(X)`.
+  * `PersistenceLandscaper` (persim/landscapes/transformer.py, after /repo commits 9596bd3, b209c93,
+    4d8db3a): `__init__`, the `start/stop` properties with `_start_fixed/_stop_fixed`, `get_params`
+    (reports only USER-assigned `start`/`stop`), `fit` (points with a non-finite coordinate are
+    ignored: `fin : α → Bool` is `np.isfinite`, a parameter), `transform` (`PersLandscapeApprox(...)`
+    is the abstract parameter `approx`), sklearn's `TransformerMixin.fit_transform` =
+    `fit(X).transform(X)`, `sklearn.base.clone(obj)` = `type(obj)(**obj.get_params())` and
+    `obj.set_params(**obj.get_params())` = one `setattr` per parameter.
+
+  Which model of `_ensure_iterable`/`transform` is used where: `imagerTransform` below (the
+  container shape of the output; the per-diagram image is a parameter) is C18's; `Model/Imager.lean`
+  (`Input`, `fit`: the geometry a fit learns from single/collection input) is C12's and is reused
+  here; `Model/Image.lean` (`Image.transform`, `Image.ensureIterable`: the pixel content of every
+  image of the output) is C04/C11's.  `Lemmas/ImageModels.lean` relates the three.
 
   Neither `transform` contains an assignment to `self`; in the model that is the fact that a
   `transform` call returns the state it was given (`icall`/`lcall`).
@@ -111,6 +120,35 @@ def lctor (homDeg : Int) (start stop : Option α) (numSteps : Int) (flatten : Bo
 def pyIndex {γ : Type} (X : List γ) (k : Int) : Option γ :=
   if 0 ≤ k then X[k.toNat]? else if 0 ≤ (X.length : Int) + k then X[((X.length : Int) + k).toNat]? else none
 
+/-- `get_params()["start"]` / `["stop"]` after 4d8db3a: only what the user assigned -/
+def getStart (s : LState α) : Option α := if s.startFixed then s.start else none
+def getStop (s : LState α) : Option α := if s.stopFixed then s.stop else none
+
+/-- `get_params` before 4d8db3a (sklearn's default): the attribute, learned or not -/
+def getStartOld (s : LState α) : Option α := s.start
+def getStopOld (s : LState α) : Option α := s.stop
+
+/-- `sklearn.base.clone(obj)`: `klass(**obj.get_params(deep=False))` — a new, unfitted object built
+    by `__init__` from the reported parameters (the parameters are plain numbers/`None`, so clone's
+    own deep copies of them are equal values and its identity check passes) -/
+def lclone (s : LState α) : LState α :=
+  lctor s.homDeg (getStart s) (getStop s) s.numSteps s.flatten
+
+def lcloneOld (s : LState α) : LState α :=
+  lctor s.homDeg (getStartOld s) (getStopOld s) s.numSteps s.flatten
+
+/-- `obj.set_params(**obj.get_params())`: `setattr(obj, key, value)` for each of the five parameters;
+    `hom_deg`/`num_steps`/`flatten` are re-assigned their own values, `start`/`stop` go through the
+    property setters with what `get_params` reported -/
+def lsetParamsFromGet (s : LState α) : LState α :=
+  setStop (setStart s (getStart s)) (getStop s)
+
+def lsetParamsFromGetOld (s : LState α) : LState α :=
+  setStop (setStart s (getStartOld s)) (getStopOld s)
+
+/-- `[pt for pt in X[hom_deg] if np.all(np.isfinite(pt))]` -/
+def finitePts (fin : α → Bool) (d : Dgm α) : Dgm α := d.filter (fun p => fin p.1 && fin p.2)
+
 variable [LT α] [DecidableLT α]
 
 /-- `min(_dgm, key=itemgetter(0))[0]` (the first minimal element wins; only its value is used) -/
@@ -131,19 +169,20 @@ def learn (keep : Bool) (cur : Option α) (fromData : Option α) : Except LErr (
     | none => Except.error LErr.valueError
     | some v => Except.ok (some v)
 
-/-- `fit` after the fix: only values that are not user-fixed are recomputed, from this data alone -/
-def lfit (s : LState α) (X : List (Dgm α)) : Except LErr (LState α) :=
+/-- `fit` after the fixes: points with a non-finite coordinate are dropped first (`fin` =
+    `np.isfinite`); only values that are not user-fixed are recomputed, from this data alone -/
+def lfit (fin : α → Bool) (s : LState α) (X : List (Dgm α)) : Except LErr (LState α) :=
   match pyIndex X s.homDeg with
   | none => Except.error LErr.indexError
   | some d =>
-    match learn s.startFixed s.start (minBirth d) with
+    match learn s.startFixed s.start (minBirth (finitePts fin d)) with
     | Except.error e => Except.error e
     | Except.ok st =>
-      match learn s.stopFixed s.stop (maxDeath d) with
+      match learn s.stopFixed s.stop (maxDeath (finitePts fin d)) with
       | Except.error e => Except.error e
       | Except.ok sp => Except.ok { s with start := st, stop := sp }
 
-/-- `fit` before 9596bd3: `if self.start is None: self.start = …` -/
+/-- `fit` before 9596bd3 (and before b209c93: no finiteness filter): `if self.start is None: self.start = …` -/
 def lfitOld (s : LState α) (X : List (Dgm α)) : Except LErr (LState α) :=
   match pyIndex X s.homDeg with
   | none => Except.error LErr.indexError
@@ -162,9 +201,9 @@ def ltransform (approx : List (Dgm α) → Option α → Option α → Int → I
   if s.flatten then flat r else r
 
 /-- sklearn `TransformerMixin.fit_transform`: `self.fit(X).transform(X)` (`fit` returns `self`) -/
-def lfitTransform (approx : List (Dgm α) → Option α → Option α → Int → Int → β) (flat : β → β)
+def lfitTransform (fin : α → Bool) (approx : List (Dgm α) → Option α → Option α → Int → Int → β) (flat : β → β)
     (s : LState α) (X : List (Dgm α)) : Except LErr (LState α × β) :=
-  match lfit s X with
+  match lfit fin s X with
   | .error e => .error e
   | .ok s' => .ok (s', ltransform approx flat s' X)
 
@@ -177,31 +216,45 @@ inductive LCall (α : Type) where
   | fit (X : List (Dgm α))
   | transform (X : List (Dgm α))
   | fitTransform (X : List (Dgm α))
+  | clone                       -- the object is replaced by `sklearn.base.clone(obj)`
+  | setParamsFromGet            -- `obj.set_params(**obj.get_params())`
 
-/-- one call: new state and the returned value (`none` for calls returning `self`/nothing) -/
-def lcall (approx : List (Dgm α) → Option α → Option α → Int → Int → β) (flat : β → β)
+/-- one call: new state and the returned value (`none` for calls returning `self`/nothing).  For
+    `clone` the "new state" is the state of the clone, with which the history goes on. -/
+def lcall (fin : α → Bool) (approx : List (Dgm α) → Option α → Option α → Int → Int → β) (flat : β → β)
     (s : LState α) : LCall α → Except LErr (LState α × Option β)
   | .setStart v => .ok (setStart s v, none)
   | .setStop v => .ok (setStop s v, none)
   | .setNumSteps n => .ok ({ s with numSteps := n }, none)
   | .setFlatten b => .ok ({ s with flatten := b }, none)
   | .setHomDeg k => .ok ({ s with homDeg := k }, none)
-  | .fit X => match lfit s X with
+  | .fit X => match lfit fin s X with
     | .error e => .error e
     | .ok s' => .ok (s', none)
   | .transform X => .ok (s, some (ltransform approx flat s X))
-  | .fitTransform X => match lfitTransform approx flat s X with
+  | .fitTransform X => match lfitTransform fin approx flat s X with
     | .error e => .error e
     | .ok (s', o) => .ok (s', some o)
+  | .clone => .ok (lclone s, none)
+  | .setParamsFromGet => .ok (lsetParamsFromGet s, none)
 
 /-- a history of calls.  A call that raises leaves the object as it was (`fit` assigns `_start`
     only after `min` succeeded, and then `max` cannot fail) and the user may go on. -/
-def lrun (approx : List (Dgm α) → Option α → Option α → Int → Int → β) (flat : β → β) :
+def lrun (fin : α → Bool) (approx : List (Dgm α) → Option α → Option α → Int → Int → β) (flat : β → β) :
     LState α → List (LCall α) → LState α
   | s, [] => s
-  | s, c :: cs => match lcall approx flat s c with
-    | .error _ => lrun approx flat s cs
-    | .ok (s', _) => lrun approx flat s' cs
+  | s, c :: cs => match lcall fin approx flat s c with
+    | .error _ => lrun fin approx flat s cs
+    | .ok (s', _) => lrun fin approx flat s' cs
+
+/-- the same history with the pre-4d8db3a `get_params` (everything else as repaired) -/
+def lrunOldParams (fin : α → Bool) : LState α → List (LCall α) → LState α
+  | s, [] => s
+  | s, .clone :: cs => lrunOldParams fin (lcloneOld s) cs
+  | s, .setParamsFromGet :: cs => lrunOldParams fin (lsetParamsFromGetOld s) cs
+  | s, c :: cs => match lcall (β := Unit) fin (fun _ _ _ _ _ => ()) id s c with
+    | .error _ => lrunOldParams fin s cs
+    | .ok (s', _) => lrunOldParams fin s' cs
 
 /-- the same history with the pre-fix `fit` -/
 def lrunOld : LState α → List (List (Dgm α)) → LState α
